@@ -118,7 +118,7 @@ def _expand(e, pos, z3, S):
 def small_scope(smt2, timeout_ms=10000):
     """progressive scopes: a model found at any scope is a genuine model of the original query"""
     last = ("unknown", "")
-    for S, tmo in ((2, 4000), (5, 6000), (SCOPE, timeout_ms)):
+    for S, tmo in ((2, 8000), (5, 12000), (SCOPE, max(timeout_ms, 20000))):
         r = _small_scope(smt2, tmo, S)
         if r[0] == "sat":
             return r
